@@ -68,7 +68,27 @@ def gen_mtl_case(rng, idx):
     leaves = [x for x in range(prog.n()) if prog.is_leaf[x] and prog.req[x]]
     calls = []
     for k in [None, 1, t + 1]:
-        tp, sp = rng.choice([(None, None), (tasks, shared)])
+        tp, sp = rng.choice([(None, None), (tasks, shared), (tasks, shared)])
+        if tp is not None and rng.random() < 0.6:
+            # the caller decides which task lists which parameter: a parameter used by two heads may be
+            # listed by one task only (it then receives d loss_i / dp of THAT task, as
+            # loss_i.backward(inputs=task_params_i) gives), or by a task whose loss does not depend on it
+            tp = [list(ps) for ps in tp]
+            multi = [q for q in {q for ps in tp for q in ps} if sum(q in ps for ps in tp) >= 2]
+            if multi and rng.random() < 0.7:
+                q = rng.choice(sorted(multi))
+                holders = [i for i, ps in enumerate(tp) if q in ps]
+                keep = rng.choice(holders)
+                for i in holders:
+                    if i != keep:
+                        tp[i].remove(q)
+            else:
+                allq = sorted({q for ps in tp for q in ps})
+                ti = rng.randrange(len(tp))
+                if allq:
+                    q = rng.choice(allq)
+                    if q not in tp[ti]:
+                        tp[ti].append(q)
         call = {"entry": "mtl", "losses": losses, "features": feats, "tasks": tp, "shared": sp,
                 "agg": ajcheck.rand_agg(rng, t, 0.7), "k": k, "retain": False,
                 "param_kind": rng.choice(["list", "gen", "iter", "tuple"])}
